@@ -88,6 +88,16 @@ def body(c, ctx):
     uh, vh = ub.interpolate(u), vb.interpolate(v)
     uh = gi.as_tuple(uh)
     vh = gi.as_tuple(vh)
+    # the same coefficients stored in another dtype (single precision; the values are exactly representable) are the same function
+    u32 = u.astype(np.float32)
+    if np.array_equal(u32.astype(np.float64), u):
+        for fa, fb in zip(gi.as_tuple(ub.interpolate(u32)), uh):
+            for attr in gi.avail(fb):
+                xa, xb = np.asarray(getattr(fa, attr), dtype=np.complex128), np.asarray(getattr(fb, attr), dtype=np.complex128)
+                if xa.shape != xb.shape or not np.allclose(xa, xb, rtol=0, atol=1e-12 * (1.0 + np.abs(xb).max())):
+                    ctx.fail('coefficient_dtype', f'interpolate(u.astype(float32)).{attr} differs from interpolate(u).{attr} by '
+                             f'{np.abs(xa - xb).max() if xa.shape == xb.shape else "shape"} although both vectors hold the same numbers | {lab}', **sig)
+                    return
     A = BilinearForm(form2, dtype=dtype, nthreads=c['nthreads']).assemble(ub, vb, **fkw(fm))
     if A.shape != (vb.N, ub.N):
         ctx.fail('shape', f'{A.shape} vs (N_test, N_trial) = ({vb.N}, {ub.N}) | {lab}', **sig)
